@@ -410,6 +410,7 @@ def specs_for(max_n):
                 g = _greedy_labels(pv)
                 out.append(gen.Spec(tuple((pv[i], g[i], None, None) for i in range(n))))
                 out.append(gen.Spec(tuple((pv[i], g[i], None, gen.KINDS[i % 2]) for i in range(n)), typed=True))
+    out += list(gen.eqpair_specs(min(max_n, 4)))  # equal data under distinct data_ids, also as siblings: nodes are told apart by identity only
     return out
 
 
@@ -431,7 +432,7 @@ def run(prop: str, tier: str, only=None) -> Result:
     total.merge(parallel(_run_chunk, sorted(specs + rnd, key=len, reverse=True), prop, 120.0, prop=prop, chunks_per_proc=8))
     total.exhaustive = False  # the random trees are sampled; the part below the bound is exhaustive
     b = (
-        f"every ordered forest with <= {max_n} nodes (distinct data / clone-rich labels / typed tree with kinds k1,k2) "
+        f"every ordered forest with <= {max_n} nodes (distinct data / clone-rich labels / typed tree with kinds k1,k2; equal data under distinct ids <= 4 nodes) "
         f"+ {n_rand} seeded random trees with 7..9 nodes over {{a,b,c,d}} (VERIF_SEED={seed()}); "
         "every start node and the Tree object"
     )
